@@ -8,6 +8,10 @@
     html write_norm <cdata> <indent> <path> <tree>
         xot.html5().serialize_write_with_normalizer(parameters, node, w, FullwidthNormalizer) called directly
 
+    html write_fail <k> <cdata> <indent> <path> <tree>
+        xot.html5().serialize_write(parameters, node, &mut FailingWriter { fail_at_call: k })
+        (`serializeHtmlWriteW (budget (some k))`): outcome (`err:Io` at the refused call) and the bytes the writer holds
+
   <cdata>  : `-` or comma-separated name ids (cdata_section_elements)
   <indent> : `-` (no indentation) | `i` (empty suppress list) | `i<ids>`
   Answers: `ok <str>` | `err:<Variant>` | `panic`; for `write`: `<ok|err:…|panic> <bytes written>`.
@@ -40,6 +44,12 @@ def handleHtml (st : DState) : List String → Option String
       let pr : HtmlParams := ⟨← parseIndent ind, ← parseNatList cd⟩
       let (t, p) ← parseTreeAt path toks
       let r := serializeHtmlWriteN fullwidthNorm st.env pr t p
+      some (showHtmlOutcome (htmlCtx st.env pr).env (fun _ => "ok") r.2 ++ " " ++ encStr r.1)
+  | "write_fail" :: k :: cd :: ind :: path :: toks => do
+      let k ← k.toNat?
+      let pr : HtmlParams := ⟨← parseIndent ind, ← parseNatList cd⟩
+      let (t, p) ← parseTreeAt path toks
+      let r := serializeHtmlWriteW (.budget (some k)) st.env pr t p
       some (showHtmlOutcome (htmlCtx st.env pr).env (fun _ => "ok") r.2 ++ " " ++ encStr r.1)
   | "write" :: cd :: ind :: path :: toks => do
       let pr : HtmlParams := ⟨← parseIndent ind, ← parseNatList cd⟩
